@@ -10,8 +10,15 @@ format rules).  Two checks run on every input `b`:
 Inputs: valid responses of every registry class built by an independent ISO builder in this file (so model and code
 are both compared with the generating field values), all byte strings of length <= 3 for every response service id
 (thorough: exhaustive; quick: length <= 2 exhaustive, length 3 on a stratified grid), mutated neighbours (every
-truncation, extension by 1..4 bytes, bit flips, duplicated trailing record) and objects constructed through the
-public constructors (`.pdu` then parsed back).
+truncation, extension by 1..4 bytes, bit flips, duplicated trailing record), objects constructed through the
+public constructors (`.pdu` then decoded by the oracle), and the class-level entry point `<Response>.from_pdu(b)` of
+every concrete response class of core/service.py (registry classes: same verdict as the oracle when the oracle's class
+is that class, rejection otherwise; the InputOutputControlByIdentifier convenience subclasses: the generic view when
+the record starts with their control parameter, rejection otherwise; every other class: `pdu == b` whenever accepted).
+
+Verdict rules: `spec_violated=True` when a typed / raw object does not re-serialise to the received bytes, `.pdu`
+raises, or an exposed field differs from the value at its ISO position; `False` (tie broken, statement intact on
+that input) when only the accept / reject / raw verdict differs while the bytes are kept.
 """
 import multiprocessing as mp
 import os
@@ -768,7 +775,8 @@ MANIFEST = {
                    "registry, NRC list and DTC-format list equal the tables regenerated from the live classes. Tied to the "
                    "code by a correspondence run of the real UDSResponse.parse_dynamic / .pdu: valid responses of every "
                    "registry class from an independent ISO builder, all byte strings of length <= 3 per response id "
-                   "(exhaustive in the thorough tier), mutated neighbours, constructed objects."),
+                   "(exhaustive in the thorough tier), mutated neighbours, constructed objects, and <Response>.from_pdu of every "
+                   "concrete response class."),
     "level_note": ("Trusted: Lean kernel (axioms propext, Quot.sound, Classical.choice), the registry translator, the "
                    "harness; struct / int.to_bytes contracts. Exception classes are not distinguished (any exception = "
                    "rejected)."),
